@@ -30,6 +30,8 @@ FORBIDDEN = re.compile(
 
 
 logging.disable(logging.CRITICAL)
+import warnings  # noqa: E402
+warnings.filterwarnings('ignore')
 
 
 class InfraError(Exception):
